@@ -148,6 +148,7 @@ func (f Nth) Walk(rest, path Expr, nodes []any, cb func(path Expr, nodes []any))
 		if index < 0 || len(tv) <= index {
 			return
 		}
+		path[len(path)-1] = Nth(index)
 		value = tv[index]
 	case gen.Array:
 		if index < 0 {
@@ -156,6 +157,7 @@ func (f Nth) Walk(rest, path Expr, nodes []any, cb func(path Expr, nodes []any))
 		if index < 0 || len(tv) <= index {
 			return
 		}
+		path[len(path)-1] = Nth(index)
 		value = tv[index]
 	case Indexed:
 		if index < 0 {
@@ -164,11 +166,17 @@ func (f Nth) Walk(rest, path Expr, nodes []any, cb func(path Expr, nodes []any))
 		if index < 0 || tv.Size() <= index {
 			return
 		}
+		path[len(path)-1] = Nth(index)
 		value = tv.ValueAtIndex(index)
 	default:
 		var has bool
 		if value, has = reflectGetNth(tv, index); !has {
 			return
+		}
+		if index < 0 {
+			if rv := reflect.ValueOf(tv); rv.Kind() == reflect.Slice || rv.Kind() == reflect.Array {
+				path[len(path)-1] = Nth(index + rv.Len())
+			}
 		}
 	}
 	if 0 < len(rest) {
